@@ -3,6 +3,7 @@ package main
 // C15 JSON is a lossless interchange form for annotated sequences.
 
 import (
+	"go/token"
 	"fmt"
 	"go/types"
 	"strings"
@@ -336,6 +337,36 @@ func checkJSONRelink(c *Ctx, parse *ssa.Function, seqT types.Type) {
 		return
 	}
 	c.ok("RELINK", "Parse:unmarshal whole Sequence", um.Pos(), "json.Unmarshal(file, &sequence) into a poly.Sequence")
+	// what the decoder filled is left as it is: apart from re-linking the features (the Features list itself),
+	// Parse stores nothing into the record that is worked out from other fields of the record ("an equal value in
+	// every field" fails for every record whose stored value differs from the recomputed one)
+	{
+		var recomputed []string
+		var at token.Pos
+		tb.buildStores()
+		for _, st := range tb.stores[dec] {
+			if st.Parent() != parse || !domInstr(um.(ssa.Instruction), st) {
+				continue
+			}
+			_, pth, isLocal := rootAlloc(st.Addr)
+			if !isLocal || len(pth) == 0 || pth[0] == ".Features" {
+				continue
+			}
+			v := tb.T(st.Val)
+			fromRecord := v.contains(func(x *Term) bool {
+				return x.Op == "field" && len(x.Args) == 1 && (strings.Contains(x.Args[0].String(), decT0(tb, dec)) || x.Args[0].Op == "outparam" || x.Args[0].Op == "field")
+			})
+			if fromRecord && (v.Op == "binop" || v.Op == "call" || v.Op == "conv") {
+				recomputed = append(recomputed, strings.Join(pth, "")+" = "+short(v.String()))
+				if at == token.NoPos {
+					at = st.Pos()
+				}
+			}
+		}
+		if len(recomputed) > 0 {
+			c.bad("RELINK", "Parse:decoded fields are left as decoded", at, "after decoding, Parse overwrites "+strings.Join(recomputed, "; ")+": a record whose stored value is not what that formula gives comes back changed")
+		}
+	}
 	decT := tb.T(dec).String()
 	decoded := []string{"outparam[encoding/json.Unmarshal]", "deref(" + decT + ")"}
 	// the AddFeature call, wherever in the family
@@ -531,3 +562,6 @@ func checkJSONRelink(c *Ctx, parse *ssa.Function, seqT types.Type) {
 func inModuleName(n string) bool {
 	return strings.HasPrefix(n, "poly/") || strings.HasPrefix(n, "(poly/") || strings.HasPrefix(n, "(*poly/")
 }
+
+
+func decT0(tb *TermBuilder, dec *ssa.Alloc) string { return tb.T(dec).String() }
